@@ -970,12 +970,20 @@ func (d *drv) rawDataset() (*ld.RDFDataset, string) {
 		add(g1, iri("urn:a"), iri(V+"q"), num(1))
 		add(g2, iri("urn:b"), iri(V+"q"), num(2))
 	case "graph-two-parents":
-		// the graph's blank node is referenced from two different graphs: error in every order
-		g1, g2 := gname(), gname()+"y"
+		// the graph's blank node is referenced from two different graphs: error in every
+		// order.  Both referencing keys also have another (legitimate) child graph, so that a
+		// search that kept the first / the last hit would succeed with an order-dependent path.
+		g1, g2, g3, g4 := gname(), gname()+"y", gname()+"z", gname()+"w"
 		add("@default", root, iri(V+"p"), bl(g1))
 		add("@default", root, iri(V+"r"), bl(g2))
 		add(g2, iri("urn:a"), iri(V+"p"), bl(g1))
 		add(g1, iri("urn:b"), iri(V+"q"), num(3))
+		if r.Intn(4) != 0 {
+			add("@default", root, iri(V+"p"), bl(g3))
+			add(g3, iri("urn:c"), iri(V+"q"), num(1))
+			add(g2, iri("urn:a"), iri(V+"p"), bl(g4))
+			add(g4, iri("urn:d"), iri(V+"q"), num(2))
+		}
 	case "graph-parent-elsewhere":
 		// the only reference to graph g1 sits in another named graph
 		g1, g2 := gname(), gname()+"z"
